@@ -277,7 +277,9 @@ def ev(t, env, W):
                     return OPAQUE
                 if m.group(2) == "BITS":
                     return PI("u32", W.bits(m.group(1), W.m))
-                return OPAQUE
+                # any other associated constant of the M-digit type: evaluate it in a world whose N is M, then tag the digit count
+                W2 = World(W.m, W.cparams, W.n)
+                return _retag(W2.const(m.group(1), m.group(2)), W2, W)
             return W.const(m.group(1), m.group(2))
         if len(t[2]) == 1 and not t[1].startswith("B") and "::" in t[1] and not t[1].startswith("<"):
             return _trait_const(t[1], t[2][0], W)
@@ -623,12 +625,13 @@ def _atom(t, env, W):
         return x > 0
     if name == "is_power_of_two":
         return x > 0 and x & (x - 1) == 0
+    # reinterpretations keep the operand's own digit count (it may differ from the world's N)
     if name in ("to_bits", "cast_unsigned") and args[0].adt in SIGNED:
-        return W.wrap(TWIN[args[0].adt], x)
+        return W.wrap(TWIN[args[0].adt], x, args[0].n)
     if name in ("from_bits",) and adt in SIGNED:
-        return W.wrap(adt, x)
+        return W.wrap(adt, x, args[0].n)
     if name == "cast_signed" and args[0].adt in UNSIGNED:
-        return W.wrap(TWIN[args[0].adt], x)
+        return W.wrap(TWIN[args[0].adt], x, args[0].n)
     if len(args) == 2 and isinstance(args[1], BN) and args[1].adt == args[0].adt:
         return _cmp_name(name, x, args[1].v)
     return OPAQUE
@@ -945,10 +948,14 @@ def _prim_atom(name, label, t, env, W):
         else:
             exp, mant = f.rawexp - bias, f.rawmant | (1 << (f.dig - 1))
         return ("tuple", (f.sign, PI("i32", exp), PI(mty, mant)))
-    m2 = re.match(r"^<(BUintD32|BUintD16|BUintD8|BUint|BIntD32|BIntD16|BIntD8|BInt)<N> as cast::CastFrom<(u8|u16|u32|u64|u128|usize|i8|i16|i32|i64|i128|isize)>>::cast_from$", label)
+    m2 = re.match(r"^<(BUintD32|BUintD16|BUintD8|BUint|BIntD32|BIntD16|BIntD8|BInt)<N> as cast::CastFrom<(u8|u16|u32|u64|u128|usize|i8|i16|i32|i64|i128|isize)>>::cast_from(::<([NM])>)?$", label)
     if m2 and len(t[2]) == 1:
         a = ev(t[2][0], env, W)
         if isinstance(a, PI):
+            if m2.group(4) == "M":
+                if W.m is None:
+                    return OPAQUE
+                return W.wrap(m2.group(1), a.v, W.m)      # the impl's digit count is the caller's M
             return W.wrap(m2.group(1), a.v)
         return OPAQUE
     m2 = re.match(r"^<(BUintD32|BUintD16|BUintD8|BUint)<N> as core::ops::Add<(u8|u16|u32|u64)>>::add$", label)
@@ -963,14 +970,14 @@ def _prim_atom(name, label, t, env, W):
         if isinstance(a, BN) and isinstance(b, PI) and b.v != 0:
             return ("tuple", (W.wrap(m2.group(1), a.v // b.v), PI(b.ty, a.v % b.v)))
         return OPAQUE
-    m2 = re.match(r"^<(u8|u16|u32|u64|u128|usize|i8|i16|i32|i64|i128|isize) as core::convert::TryFrom<(BUintD32|BUintD16|BUintD8|BUint)<N>>>::try_from$", label)
+    m2 = re.match(r"^<(u8|u16|u32|u64|u128|usize|i8|i16|i32|i64|i128|isize) as core::convert::TryFrom<(BUintD32|BUintD16|BUintD8|BUint)<[NM]>>>::try_from(::<[NM]>)?$", label)
     if m2 and len(t[2]) == 1:
         a = ev(t[2][0], env, W)
-        if isinstance(a, BN):
+        if isinstance(a, BN) and a.adt == m2.group(2):
             ty = m2.group(1)
             b = PRIM_BITS[ty]
             hi_ = (1 << (b - 1)) - 1 if ty.startswith("i") else (1 << b) - 1
-            return ("Ok", PI(ty, a.v)) if a.v <= hi_ else ("Err", OPAQUE)
+            return ("Ok", PI(ty, a.v)) if 0 <= a.v <= hi_ else ("Err", OPAQUE)
         return OPAQUE
     m2 = re.match(r"^<(BUintD32|BUintD16|BUintD8|BUint)<N> as num_traits::FromPrimitive>::from_(u8|u16|u32|u64|u128|usize)$", label)
     if m2 and len(t[2]) == 1:
@@ -984,10 +991,10 @@ def _prim_atom(name, label, t, env, W):
         if isinstance(a, PI) and a.v < (1 << W.bits(m2.group(1))):
             return W.wrap(m2.group(1), a.v)
         return OPAQUE
-    m2 = re.match(r"^<(u8|u16|u32|u64|u128|usize|i8|i16|i32|i64|i128|isize) as cast::CastFrom<(BUintD32|BUintD16|BUintD8|BUint|BIntD32|BIntD16|BIntD8|BInt)<N>>>::cast_from$", label)
+    m2 = re.match(r"^<(u8|u16|u32|u64|u128|usize|i8|i16|i32|i64|i128|isize) as cast::CastFrom<(BUintD32|BUintD16|BUintD8|BUint|BIntD32|BIntD16|BIntD8|BInt)<[NM]>>>::cast_from(::<[NM]>)?$", label)
     if m2 and len(t[2]) == 1:
         a = ev(t[2][0], env, W)
-        if isinstance(a, BN):
+        if isinstance(a, BN) and a.adt == m2.group(2):
             return _wrap_prim(m2.group(1), a.v)
         return OPAQUE
     return None
